@@ -60,8 +60,8 @@ func renderVals(h *hostapi.Host, vals []lua.LValue) string {
 	return strings.Join(parts, ",")
 }
 
-func runVM(proto *lua.FunctionProto, bodies []string, sched [][]float64, who []int, kind int, at int64, maxSteps int64, o lua.Options) (res *vmSched) {
-	h := hostapi.NewHost(hostapi.Options{LuaOptions: o, Kind: kind, At: at, MaxSteps: maxSteps})
+func runVM(proto *lua.FunctionProto, bodies []string, sched [][]float64, who []int, kind int, at int64, maxSteps int64, o lua.Options, withCtx bool) (res *vmSched) {
+	h := hostapi.NewHost(hostapi.Options{LuaOptions: o, Kind: kind, At: at, MaxSteps: maxSteps, WithContext: withCtx})
 	res = &vmSched{h: h}
 	L := h.L
 	out := h.RunProto(proto)
@@ -261,6 +261,13 @@ func (e *Engine) driverA(t *core.Tape, cfg *core.Config, st *core.Stats, enumSch
 	if t.Choose(3) == 0 {
 		o.MinimizeStackMemory = true
 	}
+	// one run in three: an (undone) context is attached, so the context-aware interpreter loop runs and every
+	// coroutine gets a child context; nothing else may change
+	withCtx := false
+	if enumSched < 0 && t.Choose(3) == 0 {
+		withCtx = true
+		st.Probe("driver_A_with_context")
+	}
 	descS := func() string {
 		var sb strings.Builder
 		for i := range sched {
@@ -268,7 +275,7 @@ func (e *Engine) driverA(t *core.Tape, cfg *core.Config, st *core.Stats, enumSch
 		}
 		return fmt.Sprintf("--- schedule ---\n%s--- program ---\n%s", sb.String(), src)
 	}
-	r0 := runVM(proto, bodies, sched, who, hostapi.VNone, 0, 80000, o)
+	r0 := runVM(proto, bodies, sched, who, hostapi.VNone, 0, 80000, o, withCtx)
 	st.Evals++
 	st.Steps += r0.steps
 	if r0.escaped != "" {
@@ -336,7 +343,7 @@ func (e *Engine) driverA(t *core.Tape, cfg *core.Config, st *core.Stats, enumSch
 		if budget < 150000 {
 			budget = 150000
 		}
-		r := runVM(proto, bodies, sched, who, hostapi.VRaise, k, budget, o)
+		r := runVM(proto, bodies, sched, who, hostapi.VRaise, k, budget, o, withCtx)
 		st.Evals++
 		st.Steps += r.steps
 		st.D(model.HashTrace(r.trace, ""))
@@ -442,8 +449,9 @@ func DebugA(draws []uint32, aux []int64) {
 	if t.Choose(3) == 0 {
 		o.MinimizeStackMemory = true
 	}
-	fmt.Println("schedule:", who, sched)
-	r0 := runVM(proto, bodies, sched, who, hostapi.VNone, 0, 80000, o)
+	withCtx := t.Choose(3) == 0
+	fmt.Println("schedule:", who, sched, "context attached:", withCtx)
+	r0 := runVM(proto, bodies, sched, who, hostapi.VNone, 0, 80000, o, withCtx)
 	free := model.RunSchedule(prog, bodies, sched, who, model.Options{MaxSteps: 400000})
 	if len(aux) < 1 {
 		return
@@ -453,7 +461,7 @@ func DebugA(draws []uint32, aux []int64) {
 	if k <= r0.chunkSteps {
 		k = r0.chunkSteps + 1
 	}
-	r := runVM(proto, bodies, sched, who, hostapi.VRaise, k, S*4+10000, o)
+	r := runVM(proto, bodies, sched, who, hostapi.VRaise, k, S*4+10000, o, withCtx)
 	vm := normTrace(r.trace)
 	best, bestM := -1, int64(0)
 	var bestT []string
